@@ -494,6 +494,23 @@ func specialScripts(thorough bool) []special {
 	add("cyclic-set-attempt", "cyclic-data", `s := {1}; s.add(s)`)
 	add("cyclic-map-key-attempt", "cyclic-data", `m := {}; m[m] = m`)
 	add("cyclic-function-default", "cyclic-data", `func f(a=f) { return a }; f()`)
+	// parameters whose declared default is nil, left unfilled at the call
+	for i, src := range []string{
+		`func f(a, b=1, c=nil) { return [a, b, c] }; f(7, 8)`,
+		`func f(a, b=1, c=nil) { return c }; f(7, 8)`,
+		`func f(a, b=1, c=nil) { return {"c": c} }; f(7, 8)`,
+		`func f(a, b=1, c=nil) { return '{c}' }; f(7, 8)`,
+		`func f(a, b=1, c=nil) { return c == nil }; f(7, 8)`,
+		`func f(a, b=1, c=nil) { return func() { return c } }; f(7, 8)()`,
+		`func f(a, b="x", c=nil, d=nil) { return [c, d] }; f(1, "y")`,
+		`func f(a, b=1, c=nil) { return type(c) }; f(7, 8)`,
+		`func f(a, b=1, c=nil) { print(c); return string(c) }; f(7, 8)`,
+		`f := func(a, b=2.5, c=nil) { return [c].map(func(x) { return x }) }; f(1, 2)`,
+		`func f(a, b=1, c=nil) { return sorted([c, c]) }; try(func() { return f(7, 8) }, func(e) { return "caught" })`,
+		`func f(a=nil, b=1) { return [a, b] }; [f(3), try(func() { return f() }, func(e) { return "args" })]`,
+	} {
+		add(fmt.Sprintf("nil-default-unfilled-%d", i), "nil-default", src)
+	}
 	add("sprintf-width", "format-width", `len(sprintf("%2000000d", 1))`)
 	add("sprintf-precision", "format-width", `len(sprintf("%.2000000f", 1.5))`)
 	add("many-threads", "threads", `ts := []; for i := range 500 { ts.append(spawn(func(x) { return x * 2 }, i)) }; ts.map(func(t) { return t.wait() }) | len`)
